@@ -275,6 +275,10 @@ def run_sorting(spec, ctx):
     for _ in range(spec["n"]):
         kind = r.choice(["num", "num", "str", "bool", "date", "list"])
         n = r.choice([0, 1, 2, 3, 4, 5, 6, 7])
+        if r.random() < 0.06 and kind != "list":
+            # long inputs (thresholds of any size-dependent fast path lie behind these): many equal keys
+            n = r.choice([17, 33, 65, 66, 100, 129, 130, 200, 300])
+            ctx.count("long_inputs")
         small = [gen_of(r, kind) for _ in range(max(1, n // 2))]
         small = [s for s in small if gv.finite(s)] or [("int", 1)]
         if kind == "num":
